@@ -208,6 +208,25 @@ func rulePAIR2(w *World) []Ob {
 				}
 			}
 			if !levelOK {
+				// a helper that receives both nodes: the guard may stand at its only call site
+				cp, ok1 := resolve(child).(*ssa.Parameter)
+				pp, ok2 := resolve(parent).(*ssa.Parameter)
+				if site := soleCallSite(p, fn); ok1 && ok2 && site != nil {
+					ci, pi := paramIndex(fn, cp), paramIndex(fn, pp)
+					args := site.Common().Args
+					if ci >= 0 && pi >= 0 && ci < len(args) && pi < len(args) {
+						for _, g := range guardsOf(site.Block()) {
+							c, pol := flattenCond(g.Cond, g.Pol)
+							if call, ok := c.(*ssa.Call); ok && pol && call.Common().StaticCallee() != nil && call.Common().StaticCallee().Name() == "isDirectlyUnder" {
+								if sameVar(call.Common().Args[0], args[ci]) && sameVar(call.Common().Args[1], args[pi]) {
+									levelOK = true
+								}
+							}
+						}
+					}
+				}
+			}
+			if !levelOK {
 				l.bad(fid, construct, p.InstrPos(ac), "the child's level is not tied to parent level + 1 (neither newNode(_, parent.hierarchy+1, _) nor a dominating child.isDirectlyUnder(parent))", "link")
 				return
 			}
@@ -260,18 +279,65 @@ func rulePAIR3(w *World) []Ob {
 		l.cfg = p.Cfg.Name
 		nc := newNilCtx(p)
 		// attach functions: functions that call addChild on a node popped/derived from a stack, i.e. take the new node as parameter and call addChild(param)
-		for _, fn := range libFuncs(p) {
+		// void helpers proven to link or merge on every path count as a link in their callers (two rounds)
+		linkFuncs := map[*ssa.Function]int{} // helper -> index of its node parameter among the call arguments
+		funcs := libFuncs(p)
+		nLib := len(funcs)
+		funcs = append(funcs, funcs...)
+		done := map[*ssa.Function]bool{}
+		for fi, fn := range funcs {
+			if done[fn] {
+				continue
+			}
 			var adds []*ssa.Call
+			var nodePrm *ssa.Parameter
 			allInstrs(fn, func(in ssa.Instruction) {
 				if ac, ok := nodeMethodCall(in, "addChild"); ok {
 					if prm, isP := resolve(ac.Common().Args[1]).(*ssa.Parameter); isP && inputIndex(fn, prm) >= 0 && fn.Signature.Recv() != nil && recvTypeName(fn) != "Node" {
 						adds = append(adds, ac)
+						nodePrm = prm
+					}
+				}
+				if c, ok := in.(*ssa.Call); ok && c.Common().StaticCallee() != nil {
+					if idx, isLink := linkFuncs[c.Common().StaticCallee()]; isLink && idx < len(c.Common().Args) {
+						if prm, isP := resolve(c.Common().Args[idx]).(*ssa.Parameter); isP && inputIndex(fn, prm) >= 0 {
+							adds = append(adds, c)
+							nodePrm = prm
+						}
 					}
 				}
 			})
 			if len(adds) == 0 {
 				continue
 			}
+			if fi < nLib {
+				// first round: only remember proven void helpers; judged (and reported) in the second round
+				if fn.Signature.Results().Len() == 0 {
+					linked := true
+					allInstrs(fn, func(in ssa.Instruction) {
+						if r, ok := in.(*ssa.Return); ok {
+							dom := false
+							for _, a := range adds {
+								if dominatesInstr(a, r) {
+									dom = true
+								}
+							}
+							if !dom && !mergeSide(r) {
+								linked = false
+							}
+						}
+					})
+					if linked {
+						for i, prm := range fn.Params {
+							if prm == nodePrm {
+								linkFuncs[fn] = i
+							}
+						}
+					}
+				}
+				continue
+			}
+			done[fn] = true
 			sharedWithD := p.Cfg.Name == "W" && fileInD(w, p.Fset.Position(fn.Pos()).Filename)
 			fid := p.FuncID(fn)
 			res := fn.Signature.Results()
@@ -355,25 +421,51 @@ func rulePAIR3(w *World) []Ob {
 			} else {
 				l.ok(fid, "attach never drops", p.Pos(fn.Pos()), "success is returned only after addChild or on the findChildByText merge side; otherwise failure is returned", true, "attach")
 			}
-			// callers
+			// callers; a caller that only passes its own node parameter on and reports the failure through its
+			// result is itself an attach function for its callers
 			num := map[string]numbered{}
-			for _, ci := range p.Callers(fn) {
-				call, ok := ci.(*ssa.Call)
-				cfid := p.FuncID(ci.Parent())
-				if num[cfid] == nil {
-					num[cfid] = numbered{}
+			seenFn := map[*ssa.Function]bool{}
+			var callers func(f *ssa.Function, depth int)
+			callers = func(f *ssa.Function, depth int) {
+				if seenFn[f] || depth > 3 {
+					return
 				}
-				construct := num[cfid].name("result of " + calleeString(ci.Common()))
-				if !ok {
-					l.bad(cfid, construct, p.InstrPos(ci), "attach called through go/defer: result lost", "attach-caller")
-					continue
-				}
-				if why := failureLeadsToErrorExit(p, nc, call); why != "" {
-					l.bad(cfid, construct, p.InstrPos(ci), why, "attach-caller")
-				} else {
+				seenFn[f] = true
+				for _, ci := range p.Callers(f) {
+					call, ok := ci.(*ssa.Call)
+					cfid := p.FuncID(ci.Parent())
+					if num[cfid] == nil {
+						num[cfid] = numbered{}
+					}
+					construct := num[cfid].name("result of " + calleeString(ci.Common()))
+					if !ok {
+						l.bad(cfid, construct, p.InstrPos(ci), "attach called through go/defer: result lost", "attach-caller")
+						continue
+					}
+					if why := failureLeadsToErrorExit(p, nc, call); why != "" {
+						l.bad(cfid, construct, p.InstrPos(ci), why, "attach-caller")
+						continue
+					}
 					l.ok(cfid, construct, p.InstrPos(ci), "a failed attach leads to an error exit (return / yield / send of a non-nil error, then return)", true, "attach-caller")
+					par := ci.Parent()
+					passes := false
+					for i, a := range call.Common().Args {
+						if i > 0 && isNodePtr(a.Type()) {
+							if prm, isP := resolve(a).(*ssa.Parameter); isP && inputIndex(par, prm) >= 0 {
+								passes = true
+							}
+						}
+					}
+					pres := par.Signature.Results()
+					if passes && par.Parent() == nil && pres.Len() > 0 && !types.NewVar(0, nil, par.Name(), nil).Exported() {
+						last := pres.At(pres.Len() - 1).Type()
+						if b, isB := last.Underlying().(*types.Basic); isErrorType(last) || (isB && b.Kind() == types.Bool) {
+							callers(par, depth+1)
+						}
+					}
 				}
 			}
+			callers(fn, 0)
 		}
 	}
 	hasAttach := false
